@@ -206,7 +206,9 @@ type forest struct {
 	cells map[string]bool
 }
 
-// initial configurations: 0 = no external lookup, 1 = on the root, 2 = on a child
+// initial configurations: 0 = no external lookup, 1 = on the root, 2 = on a child,
+// 3 = no external lookup, but the root's tables exist and are empty (a name was
+// defined and deleted again: lazily created maps must behave like absent ones)
 func newForest(cfg int) *forest {
 	f := &forest{r2m: map[*env.Env]*mscope{}}
 	r := env.NewEnv()
@@ -216,6 +218,12 @@ func newForest(cfg int) *forest {
 	case 1:
 		r.SetExternalLookup(extLookup{})
 		m.ext = true
+	case 3:
+		r.Define("a", int64(1))
+		r.Delete("a")
+		r.DefineType("a", int64(0))
+		// there is no API to delete a type: only the value table is emptied
+		m.types["a"] = tInt64
 	case 2:
 		c := r.NewEnv()
 		c.SetExternalLookup(extLookup{})
@@ -642,6 +650,17 @@ func (f *forest) key() [20]byte {
 	return sha1.Sum([]byte(b.String()))
 }
 
+// keyOf: the canonical model state, kept apart for configuration 3 (the model
+// cannot tell an empty table from an absent one; the implementation might)
+func keyOf(f *forest, cfg int) [20]byte {
+	k := f.key()
+	if cfg == 3 {
+		k[0] ^= 0xA5
+		k[19] ^= 0x5A
+	}
+	return k
+}
+
 // ---------- the search ----------
 
 type history struct {
@@ -650,7 +669,7 @@ type history struct {
 }
 
 func (h history) String() string {
-	cfg := []string{"ext=none", "ext=root", "ext=child(s1)"}[h.Cfg]
+	cfg := []string{"ext=none", "ext=root", "ext=child(s1)", "ext=none,root-table-emptied"}[h.Cfg]
 	parts := []string{cfg}
 	for _, o := range h.Ops {
 		parts = append(parts, o.String())
@@ -708,12 +727,12 @@ func run(c *common.Ctx) *common.Result {
 	}
 	seen := map[[20]byte]bool{}
 	var frontier []node
-	for cfg := 0; cfg < 3; cfg++ {
+	for cfg := 0; cfg < 4; cfg++ {
 		f := newForest(cfg)
 		if d := f.observe(); d != "" {
 			res.Violate(common.Violation{Class: "initial/state", Case: history{Cfg: cfg}.String(), Detail: d, Replay: history{Cfg: cfg}})
 		}
-		seen[f.key()] = true
+		seen[keyOf(f, cfg)] = true
 		frontier = append(frontier, node{h: history{Cfg: cfg}})
 	}
 	res.Add("states", int64(len(frontier)))
@@ -757,7 +776,7 @@ func run(c *common.Ctx) *common.Result {
 					}
 					continue // do not extend a history past a divergence
 				}
-				k := f.key()
+				k := keyOf(f, nd.h.Cfg)
 				idx := append(append([]int{}, nd.idx...), oi)
 				if old, ok := local[k]; !ok || less(idx, old.idx) {
 					local[k] = node{h: h, idx: idx}
@@ -806,7 +825,7 @@ func coverage(c *common.Ctx, r *common.Result) map[string]interface{} {
 		"transitions":                   r.Counts["transitions"],
 		"traces_validated_against_impl": r.Counts["transitions"],
 		"max_depth":                     r.GetMax("depth"),
-		"rule": "breadth-first search over histories of env API calls (≈92 calls per live scope: Define/Set/Get/Delete/DeleteGlobal/DefineGlobal/Addr/DefineType/DefineGlobalType/Type/NewEnv/NewModule/GetEnvFromPath(len≤2)/Copy/DeepCopy/symbol listings/String over names a,b,a.b,m) from three initial configurations (no external lookup, lookup on the root, lookup on a child); " +
+		"rule": "breadth-first search over histories of env API calls (≈92 calls per live scope: Define/Set/Get/Delete/DeleteGlobal/DefineGlobal/Addr/DefineType/DefineGlobalType/Type/NewEnv/NewModule/GetEnvFromPath(len≤2)/Copy/DeepCopy/symbol listings/String over names a,b,a.b,m) from four initial configurations (no external lookup, lookup on the root, lookup on a child, root whose value table was created and emptied again); " +
 			"states de-duplicated on the canonical form of the reference model's forest; every transition replays the history on fresh real scopes, executes the call on implementation and model, compares return value / error class and then the whole observable state (symbols, Get and Type of every pool name, on every live scope)",
 		"explanation": "a state is the model forest; a transition is one API call executed on the real env package and on the model in lock-step, so every transition is also a model trace step validated against the implementation",
 	}
